@@ -43,6 +43,7 @@ structure State where
   lph   : Nat → Bool
   buf   : Nat → List (Nat × Bool)   -- store buffer, oldest first
   rpc   : Nat → RPc
+  held  : Nat → List Bool      -- C19: snapshots loaded by interrupted rcu_read_lock() frames of reader i
   inD   : Nat → Bool
   sawX0 : Nat → Bool
   sawY1 : Nat → Bool
@@ -58,7 +59,7 @@ structure State where
 
 def init : State :=
   { gp := false, reg := fun _ => false, mnest := fun _ => 0, mph := fun _ => false,
-    lnest := fun _ => 0, lph := fun _ => false, buf := fun _ => [], rpc := fun _ => .out,
+    lnest := fun _ => 0, lph := fun _ => false, buf := fun _ => [], rpc := fun _ => .out, held := fun _ => [],
     inD := fun _ => false, sawX0 := fun _ => false, sawY1 := fun _ => false,
     xset := false, yset := false, tracked := false, trackedDone := false,
     upc := .idle, pend := fun _ => false, inp := fun _ => false, snap := fun _ => false,
@@ -83,6 +84,8 @@ inductive Label
   | uP2Done                  -- pass 2 input list empty: second master barrier begins
   | uEnd
   | setY                     -- tracked updater's store after synchronize_rcu() returned
+  | sigPush (i : Nat)        -- C19: a signal handler interrupts rcu_read_lock() between its load of rcu_gp.ctr and its store
+  | sigPop (i : Nat)         -- C19: that handler returns (its own sections are balanced)
   deriving Repr, DecidableEq
 
 /-- One step; `none` = not enabled. -/
@@ -93,7 +96,7 @@ def step (c : Cfg) (s : State) : Label → Option State
                     inp := if s.upc = .mbar1 ∨ s.upc = .p1 then upd s.inp i true else s.inp }
     else none
   | .unreg i =>
-    if i < c.n ∧ s.reg i = true ∧ s.rpc i = .out then
+    if i < c.n ∧ s.reg i = true ∧ s.rpc i = .out ∧ s.held i = [] then
       some { s with reg := upd s.reg i false, inp := upd s.inp i false,
                     snap := upd s.snap i false, qs := upd s.qs i false }
     else none
@@ -113,12 +116,13 @@ def step (c : Cfg) (s : State) : Label → Option State
                     sawX0 := upd s.sawX0 i false, sawY1 := upd s.sawY1 i false }
     else none
   | .rInc i =>
-    if i < c.n ∧ s.rpc i = .cs then
+    -- (also from a handler that interrupts rcu_read_lock() after its activating store: pc `fence`)
+    if i < c.n ∧ (s.rpc i = .cs ∨ s.rpc i = .fence) then
       some { s with lnest := upd s.lnest i (s.lnest i + 1),
                     buf := upd s.buf i (s.buf i ++ [(s.lnest i + 1, s.lph i)]) }
     else none
   | .rDec i =>
-    if i < c.n ∧ s.rpc i = .cs ∧ 2 ≤ s.lnest i then
+    if i < c.n ∧ (s.rpc i = .cs ∨ s.rpc i = .fence) ∧ 2 ≤ s.lnest i then
       some { s with lnest := upd s.lnest i (s.lnest i - 1),
                     buf := upd s.buf i (s.buf i ++ [(s.lnest i - 1, s.lph i)]) }
     else none
@@ -178,5 +182,14 @@ def step (c : Cfg) (s : State) : Label → Option State
     else none
   | .setY =>
     if s.trackedDone = true then some { s with yset := true } else none
+  | .sigPush i =>
+    match s.rpc i with
+    | .ld g => if i < c.n then some { s with rpc := upd s.rpc i .out, held := upd s.held i (g :: s.held i) } else none
+    | _ => none
+  | .sigPop i =>
+    match s.held i with
+    | g :: rest =>
+      if i < c.n ∧ s.rpc i = .out then some { s with rpc := upd s.rpc i (.ld g), held := upd s.held i rest } else none
+    | [] => none
 
 end UrcuVerif.Gp
